@@ -192,7 +192,7 @@ impl SValue {
         if i2 == 0 {
             return SValue::from_i(0);
         }
-        SValue::from_i(i1 / i2)
+        SValue::from_i(i1.wrapping_div(i2)) // isize::MIN / -1 wraps instead of panicking
     }
     pub fn lteq(&self, v: SValue) -> bool {
         match self {
